@@ -48,7 +48,9 @@ RULE = (
     "(phase 6) LineBox around FIXED-only / BOX+FIXED / FLOW+FIXED widgets; (phase 7) fill strings of 1-2 (quick) / 1-3 (thorough) units "
     "from ASCII, narrow multi-byte or DEC line drawing, precomposed and combining accents, a double-width character (never first), per "
     "encoding, in SolidFill, Divider, LineBox line characters and ScrollBar thumb / trough; (phase 8) Pile and Columns with weight 0, "
-    "weights 1000 and 0.5 and given 0 in flow / box / fixed flavours, alone and under ListBox / Filler / LineBox / Columns parents."
+    "weights 1000 and 0.5 and given 0 in flow / box / fixed flavours, alone and under ListBox / Filler / LineBox / Columns parents; "
+    "(phase 9) ProgressBar with / without satt x 8 fractions (0, 1/16, 1/8, 3/8, 0.77, 1, < 0, > done) x done 100 / 7 / 1 at widths 1..12 in "
+    "utf8, euc-jp, ascii and iso8859-1; (phase 10) ~450 recipes covering every case named by the `fixed: property=C01` lines of KNOWN_FINDINGS.txt."
 )
 ASSUMES = [
     "directed phase 4 only (a FIXED widget with a cursor clipped by Padding(width='clip') / Overlay(width='pack')): the character under the widget's own cursor is unique in its text, so when that character is visible in the clipping parent's canvas the canvas cursor, if present, must be on that cell; 'cursor outside although its cell is visible' is the C01 cursor clause for the visible part (kept apart from the known 'cursor left outside after its cell was clipped away' lines), 'cursor on another cell' goes one step beyond the statement and is reported under its own signature",
@@ -76,6 +78,8 @@ REQUIRE = {
     "directed_scrolled_bar_trees": 100,
     "directed_fill_string_trees": 100,
     "directed_odd_option_trees": 40,
+    "directed_progress_bar_trees": 150,
+    "directed_regression_trees": 200,
     "skipped_invalid": 1,
     "directed_control_text_trees": 50,
     "mode:utf8": 100,
@@ -123,6 +127,12 @@ class Finding:
         return f"<Finding {self.key} path={self.path} size={self.size} focus={self.focus}>"
 
 
+# encodings by mode name: the generator's three plus an 8-bit non-ASCII one used by directed phases only ("narrow" is
+# ascii); GRID_MODE maps a mode name to the width model of vmon.models.grid
+ENC = dict(T.ENCODINGS, latin1="iso8859-1")
+GRID_MODE = {"latin1": "narrow"}
+
+
 class Env:
     """installed monitor + counters shared by run()/replay()"""
 
@@ -130,15 +140,17 @@ class Env:
         self.ctx = ctx
         self.m1 = RC.M1()
         self.mode = "utf8"
+        self.gmode = "utf8"
         self.probes = 0
 
     def set_mode(self, mode):
         import urwid
 
-        urwid.util.set_encoding(T.ENCODINGS[mode])
+        urwid.util.set_encoding(ENC[mode])
         MODE_NOW[0] = mode
         self.mode = mode
-        self.m1.mode = mode
+        self.gmode = GRID_MODE.get(mode, mode)
+        self.m1.mode = self.gmode
 
 
 # Directed phase 6 only: warning classes that cannot describe the generated tree because the recipe contains no widget of
@@ -206,7 +218,7 @@ def evaluate(env, w, reg, size, focus):
     from urwid.canvas import CanvasCache
 
     m1 = env.m1
-    mode = env.mode
+    mode = env.gmode
     CanvasCache.clear()
     m1.reset()
     reported = None
@@ -412,14 +424,14 @@ def _candidates(recipe):
             sv = T._txt(v)
             if by:
                 try:
-                    sv = sv.decode(T.ENCODINGS[MODE_NOW[0]])
+                    sv = sv.decode(ENC[MODE_NOW[0]])
                 except UnicodeDecodeError:
                     continue
             if 1 < len(sv) <= 40:
                 outs = [sv[:i] + sv[i + 1 :] for i in range(len(sv))]
                 outs += [sv[:i] + "a" + sv[i + 1 :] for i in range(len(sv)) if sv[i] != "a" and not sv[i].isascii()]
                 for o in outs:
-                    yield T.replace_at(recipe, p, dict(n, **{k: ({"bytes": o.encode(T.ENCODINGS[MODE_NOW[0]]).decode("latin-1")} if by else o)}))
+                    yield T.replace_at(recipe, p, dict(n, **{k: ({"bytes": o.encode(ENC[MODE_NOW[0]]).decode("latin-1")} if by else o)}))
         if t in ("Text",) and isinstance(n.get("text"), list):
             mk = n["text"]
             if len(mk) > 1:
@@ -538,7 +550,7 @@ def report(env, recipe, f, history=()):
         wit["ignore_warnings"] = sorted(INTERNAL_WARNINGS)
     call = {0: "pack((), {0}); w.render((), {0})", 1: "rows({1}, {0}); w.render({1}, {0})", 2: "render({1}, {0})"}[len(f.root_size)]
     standalone = (
-        f"import urwid; urwid.util.set_encoding({T.ENCODINGS[env.mode]!r}); "
+        f"import urwid; urwid.util.set_encoding({ENC[env.mode]!r}); "
         + "".join(f"w.render({tuple(s)!r}, {fo}); " for s, fo in history).join(["w = " + T.to_code(recipe) + "; ", ""])
         + "w." + call.format(f.root_focus, tuple(f.root_size))
     )
@@ -626,7 +638,7 @@ def check_clip_cursor(env, recipe, size):
     (a cursor left outside in that case is the ordinary cursor-inside clause)."""
     from urwid.canvas import CanvasCache
 
-    mode = env.mode
+    mode = env.gmode
     CanvasCache.clear()
     leaf = T.build(recipe["c"][0])
     own = leaf.render((), True)
@@ -674,7 +686,7 @@ def drive_clip_cursor(env, recipe, mode, sizes, seen_prekeys, max_per_prekey):
             kind, msg = got
             sig = f"C01|{recipe['t']}|{kind}"
             wit = {"mode": mode, "recipe": recipe, "size": list(size), "focus": True, "clause": "clip-cursor"}
-            code = f"import urwid; urwid.util.set_encoding({T.ENCODINGS[mode]!r}); w = {T.to_code(recipe)}; w.render({tuple(size)!r}, True).cursor"
+            code = f"import urwid; urwid.util.set_encoding({ENC[mode]!r}); w = {T.to_code(recipe)}; w.render({tuple(size)!r}, True).cursor"
             ctx.violation(sig, f"{msg}\n  replay: {code}", wit)
 
 
@@ -797,6 +809,143 @@ def odd_option_cases():
             yield {"t": "Filler", "valign": "top", "top": 0, "bottom": 0, "min_height": None, "height": "pack", "c": [b]}
             yield cols([("weight", 1, b), ("weight", 1, t1)], div=0)
         yield {"t": "LineBox", "title": "", "title_align": "center", "off": [], "c": [b]}
+
+
+# ---------------------------------------------------------------- directed phases 9 / 10: ProgressBar sweep, fixed-defect regressions
+
+
+def progress_bar_cases():
+    for satt in (True, False):
+        for done in (100, 7, 1):
+            for frac in (0, 1 / 16, 1 / 8, 3 / 8, 0.77, 1, -0.3, 1.2):
+                cur = frac * done
+                yield {"t": "ProgressBar", "current": int(cur) if float(cur).is_integer() else cur, "done": done, "satt": satt}
+
+
+def _txt_(s, align="left", wrap="space"):
+    return {"t": "Text", "text": s, "align": align, "wrap": wrap}
+
+
+def _big_(s="1"):
+    return {"t": "BigText", "text": s, "font": "Thin3x3Font"}
+
+
+def _sf_(ch="x"):
+    return {"t": "SolidFill", "ch": ch}
+
+
+def _pile_(items, focus=None):
+    return {"t": "Pile", "items": [[k, a] for k, a, _c in items], "focus": focus, "c": [c for _k, _a, c in items]}
+
+
+def _cols_(items, div=0, box=(), focus=None, minw=1):
+    return {"t": "Columns", "items": [[k, a] for k, a, _c in items], "focus": focus, "dividechars": div, "min_width": minw, "box_columns": list(box), "c": [c for _k, _a, c in items]}
+
+
+def _pad_(c, align="left", width="pack", minw=None, left=0, right=0):
+    return {"t": "Padding", "align": align, "width": width, "min_width": minw, "left": left, "right": right, "c": [c]}
+
+
+def _ov_(top, align="left", width="pack", valign="top", height="pack", minw=None, minh=None, l=0, r=0, t=0, b=0, bottom=None):  # noqa: E741
+    return {"t": "Overlay", "align": align, "valign": valign, "width": width, "height": height, "min_width": minw, "min_height": minh,
+            "left": l, "right": r, "top": t, "bottom": b, "c": [top, bottom or _sf_(".")]}  # fmt: skip
+
+
+def _lb_(items, focus=None, walker="SimpleFocusListWalker"):
+    return {"t": "ListBox", "walker": walker, "focus": focus, "c": items}
+
+
+def regression_cases():
+    """(mode, recipe) for every case named by the `fixed: property=C01` lines of KNOWN_FINDINGS.txt (commit in the comment)"""
+    rel = lambda p: ["relative", p]  # noqa: E731
+    out = []
+    add = lambda r, mode="utf8": out.append((mode, r))  # noqa: E731
+    # 1f8f861 PopUpTarget sizing is BOX only, also below decorations that inherit sizing
+    flowbox = {"t": "Filler", "valign": "top", "top": 0, "bottom": 0, "min_height": None, "height": "pack", "c": [_txt_("a")]}
+    for child in (flowbox, _pile_([]), _sf_()):
+        put = {"t": "PopUpTarget", "c": [child]}
+        add(put)
+        add({"t": "AttrMap", "attr": "a", "focus": None, "c": [put]})
+        add({"t": "LineBox", "title": "", "title_align": "center", "off": [], "c": [put]})
+        add({"t": "WidgetPlaceholder", "c": [put]})
+    # 395eade Padding(width='pack') around a box widget, also as an Overlay top
+    for minw in (None, 3):
+        for left, right in ((0, 0), (1, 2)):
+            p = _pad_(_sf_(), "left", "pack", minw, left, right)
+            add(p)
+            add(_ov_(p, "left", rel(30), "top", 1))
+    # 7be1611 Pile with a FIXED-only PACK item: flow rows, box pass next to WEIGHT items
+    add(_pile_([("pack", None, _big_()), ("pack", None, _txt_("a"))]))
+    add(_pile_([("given", 1, _sf_()), ("pack", None, _big_("12"))]))
+    add(_pile_([("weight", 1, _sf_()), ("pack", None, _big_())]))
+    add(_pile_([("weight", 1, _sf_()), ("given", 1, _sf_(".")), ("pack", None, _big_())]))
+    # (the frozenset assignment of that commit sat in the fixed path of a zero-weight BOX item; such a pile reports BOX only and
+    #  a box pile without a positive weight is documented as unsupported -- PileError -- so there is no in-domain case for it)
+    # e6b746b Pile.sizing(): no BOX with a WEIGHT item that is not a box widget
+    for w in (_txt_("a"), {"t": "Divider", "ch": "-", "top": 1, "bottom": 0}, {"t": "Button", "label": "a", "align": "left", "wrap": "space"}):
+        add(_pile_([("given", 1, _sf_()), ("weight", 1, w)]))
+        add(_pile_([("weight", 1, w), ("given", 2, _sf_())]))
+    # 375678f SelectableIcon / Button: cursor clipped away on the left
+    for text in ("ab", "abcdef", "a漢b"):
+        for align in ("right", "center"):
+            for wrap in ("clip", "ellipsis"):
+                for pos in (0, 1):
+                    add({"t": "SelectableIcon", "text": text, "cursor_position": pos, "align": align, "wrap": wrap})
+                add({"t": "Button", "label": text, "align": align, "wrap": wrap})
+    # 7bf37a6 empty string inside text markup (str and bytes, first / middle / last position)
+    for segs in ([["hl", "ñ"], ["a", ""], ["hl", "1漢"]], [["a", ""], ["hl", "xy"]], [["hl", "xy\nz"], ["a", ""]], [["a", ""], ["b", ""]]):
+        for wrap in ("space", "clip", "any"):
+            add(_txt_(segs, "left", wrap))
+    bseg = [[None, {"bytes": "語".encode("utf-8").decode("latin-1")}], ["b", {"bytes": ""}], ["a", {"bytes": "à/ C".encode("utf-8").decode("latin-1")}]]
+    add(_txt_(bseg, "left", "clip"))
+    add(_txt_([["hl", {"bytes": "ab"}], ["a", {"bytes": ""}], ["b", {"bytes": "."}]], "left", "clip"), "narrow")
+    # a055b54 Padding rendered FIXED is pack() wide: given / pack / relative x min_width x alignment x left/right x children
+    for child in (_txt_("a"), _txt_(""), _big_(), _big_(""), {"t": "Divider", "ch": "-", "top": 0, "bottom": 0}):
+        fixed_child = child["t"] != "Divider"
+        for width in (1, 5, "pack", rel(100), rel(30), rel(70)):
+            if isinstance(width, int) and child["t"] == "BigText":
+                continue  # GIVEN needs a flow / box widget
+            if not isinstance(width, int) and not fixed_child:
+                continue
+            for minw in (None, 3, 6):
+                for align in ("left", "center", "right"):
+                    add(_pad_(child, align, width, minw, 0, 0))
+                add(_pad_(child, "left", width, minw, 2, 1))
+    # fb41765 Overlay: PACK top wider than the box (every alignment), relative sizes rounding to 0, empty top, fixed with left/right
+    for top in (_txt_("ab"), _txt_("漢a ア", "left", "clip"), _big_(), {"t": "RadioButton", "label": "a", "state": False}, _big_("")):
+        for align in ("left", "center", "right", rel(50)):
+            for valign in ("top", "middle", rel(25)):
+                add(_ov_(top, align, "pack", valign, "pack"))
+        add(_ov_(top, "left", "pack", "top", "pack", l=2, r=1))
+    for width, height, kw in ((rel(100), rel(50), {"t": 2}), (rel(80), rel(30), {"minw": 6}), (1, rel(80), {"b": 1}), (rel(30), 1, {}), (rel(30), "pack", {})):
+        add(_ov_(_sf_() if height != "pack" else _txt_("a", "left", "clip"), "left", width, "top", height, **kw))
+    # eda518a Columns with box_columns whose flow columns are all hidden
+    lbx = _lb_([{"t": "Divider", "ch": "x", "top": 0, "bottom": 0}], None, "SimpleListWalker")
+    for boxw in (_sf_(), lbx):
+        add(_cols_([("given", 1, _txt_("a")), ("given", 2, boxw)], 0, [1], 1))
+        add(_cols_([("given", 1, _txt_("a")), ("given", 2, boxw)], 0, [1], None, 4))
+        add(_cols_([("given", 3, _txt_("a")), ("weight", 1, boxw)], 1, [1], 1))
+    # ad4e628 Filler with a relative height rounding to 0 rows / no row left
+    for height, top, bottom in ((rel(30), 0, 0), (rel(100), 0, 2), (rel(50), 1, 0), (rel(10), 0, 0)):
+        for valign in ("top", "middle", "bottom"):
+            add({"t": "Filler", "valign": valign, "top": top, "bottom": bottom, "min_height": None, "height": height, "c": [_sf_()]})
+    # bcce923 empty GridFlow next to the focus in a ListBox / Pile
+    eg = {"t": "GridFlow", "cell_width": 8, "h_sep": 1, "v_sep": 0, "align": "left", "focus": None, "c": []}
+    for fpos in (0, 1, 2):
+        add(_lb_([eg, _txt_("ab"), _txt_("cd")], fpos))
+        add(_lb_([_txt_("ab"), eg, {"t": "Edit", "caption": "", "edit_text": "x", "multiline": False, "align": "left", "wrap": "space", "edit_pos": None, "mask": None}], fpos))
+    add(_pile_([("pack", None, eg), ("pack", None, _txt_("a"))], 0))
+    # ba2bf09 PopUpTarget forwarding optional cursor methods
+    for inner in (_sf_(), {"t": "Scrollable", "c": [_txt_("a b c d")], "scrollpos": 0}, flowbox):
+        ba = {"t": "BoxAdapter", "height": 3, "c": [{"t": "PopUpTarget", "c": [inner]}]}
+        add(_lb_([ba, _txt_("a")], 0))
+        add(_lb_([_txt_("a"), ba], 1))
+    # 607893a Columns.pack(()) dividers with hidden (zero-weight) columns in first / middle / last position
+    for order in ((0, 1, 1), (1, 0, 1), (1, 1, 0), (0, 0, 1)):
+        for div in (1, 2):
+            items = [("weight", 0, _txt_("abc")) if not shown else ("pack", None, _txt_("abcd" + "e" * i)) for i, shown in enumerate(order)]
+            add(_cols_(items, div))
+    return out
 
 
 def drive_tree(env, recipe, mode, sizes_for, seen_prekeys, max_per_prekey):
@@ -1010,6 +1159,26 @@ def run(ctx):
                 continue
             drive_tree(env, recipe, "utf8", lambda smode: SIZES[smode] if smode != "box" else small["box"] + [(8, 8), (40, 13)], seen_prekeys, max_per_prekey)
             ctx.count("directed_odd_option_trees")
+        # 9. directed: ProgressBar sweep (satt set / unset x fractions incl. < 0 and > done x done values) at widths 1..12 in
+        #    every encoding including an 8-bit non-ASCII one
+        j = 0
+        for mode in (*T.ENCODINGS, "latin1"):
+            for recipe in progress_bar_cases():
+                j += 1
+                if not ctx.mine(j):
+                    continue
+                drive_tree(env, recipe, mode, lambda smode: [(c,) for c in range(1, 13)] if smode == "flow" else [], seen_prekeys, max_per_prekey)
+                ctx.count("directed_progress_bar_trees")
+        # 10. directed: every case named by a `fixed: property=C01` line (regressions of earlier fixes)
+        j = 0
+        for mode, recipe in regression_cases():
+            j += 1
+            if not ctx.mine(j):
+                continue
+            reg_sizes = {"fixed": [()], "flow": [(c,) for c in ((1, 2, 3, 4, 6, 10, 40) if ctx.quick else (*range(1, 14), 40))],
+                         "box": small["box"] + [(3, 3), (6, 1), (8, 8), (40, 13)]}  # fmt: skip
+            drive_tree(env, recipe, mode, lambda smode: reg_sizes[smode], seen_prekeys, max_per_prekey)
+            ctx.count("directed_regression_trees")
     finally:
         env.m1.uninstall()
         urwid.util.set_encoding(old_enc)
